@@ -373,6 +373,8 @@ where
                         let next_commit_idx = committed.index();
                         #[cfg(feature = "verif-hooks")]
                         crate::verif::commit_done(commit_idx);
+                        #[cfg(feature = "verif-hooks")]
+                        crate::verif::rt::obs4("commit_done", commit_idx, 0, 0, 0);
                         self.scheduler_ctx.publish_commit(next_commit_idx);
                         #[cfg(feature = "verif-hooks")]
                         crate::verif::rt::pt1("commit_dep_release", commit_idx);
